@@ -196,6 +196,30 @@ func checkC12(p *Program, r *Report) {
 	c12Copy(p, r, m, fns)
 	c12Setters(p, r, m, fns)
 	c12NoPanic(p, r, m, fns)
+	// R11: every operation comes back and leaves the scope usable: the scope's lock is released on every path of every function
+	// that takes it (the typestate analysis of C13.R2, read for what this property says: an operation that returns holding the
+	// lock makes the next define/set on that scope, or on any scope below it, wait for ever)
+	r.Explain("R11 every function of package env that takes a scope's lock releases it on every path to a return (an operation that keeps it makes every later write to the scope, and every chain walk through it, hang).")
+	nLock := 0
+	for _, fn := range fns {
+		has := false
+		for _, b := range fn.Blocks {
+			for _, in := range b.Instrs {
+				if c, ok := in.(ssa.CallInstruction); ok {
+					if base, _ := m.mutexOp(c.Common()); base != nil {
+						has = true
+					}
+				}
+			}
+		}
+		if !has {
+			continue
+		}
+		nLock++
+		m.lockset(fn, r, "C12.R11")
+		r.OK("C12.R11", funcName(fn)+"|lock released on every path", p.Pos(fn.Pos()), "lock/unlock typestate computed on all paths")
+	}
+	r.Floor("C12.R11", nLock, 12)
 }
 
 // dominatedByDotReject: the update m[k]=v executes only after strings.Contains(k, ".") returned false.
